@@ -614,6 +614,26 @@ pub fn case_columnar(ctx: &mut Ctx, seed: u64, case: &Value) {
                 modelv(ctx, "C08:writer-model-rows", format!("{what}: model writer pipeline does not read back its own rows"), case);
             }
             ctx.report.count("columnar:writer-model-compared");
+            // Column::get_docids_for_value_range through the index: model (docid_range_to_rowids, matching
+            // rows, select_batch_in_place) vs real, on u64 columns
+            if let (DynamicColumn::U64(col), Some(r)) = (&dc, &u64rows) {
+                let flat: Vec<u64> = r.iter().flatten().copied().collect();
+                if !flat.is_empty() && num_docs > 0 {
+                    let mut r3 = Rng(seed ^ 0x7272_7272 ^ crate::report::fnv(c.name.as_bytes()));
+                    let a = flat[r3.usize_below(flat.len())];
+                    let b = flat[r3.usize_below(flat.len())];
+                    let (lo, hi) = (a.min(b), a.max(b));
+                    let s = r3.usize_below(num_docs);
+                    let e = s + r3.usize_below(num_docs - s + 1);
+                    let mut docs = vec![];
+                    col.get_docids_for_value_range(lo..=hi, s as u32..e as u32, &mut docs);
+                    let m = ctx.model.ask(&format!("C08 colrange {lo} {hi} {s} {e} {txt}"));
+                    if m != nat_list(&docs) {
+                        modelv(ctx, "C08:column-range-lookup-model", format!("{what}: model get_docids_for_value_range({lo}..={hi}, {s}..{e}) differs from the real result ({} docs)", docs.len()), case);
+                    }
+                    ctx.report.count("columnar:range-lookup-model-compared");
+                }
+            }
         }
     }
     ctx.report.count_n("columnar:columns-checked", expected_present);
